@@ -51,6 +51,7 @@ type run struct {
 	feedCh  chan []byte
 	serveRet atomic.Value // string: how Serve ended (set before the event is emitted)
 	lastItem *sentItem    // the item of the last presence fed (what the callback must report)
+	lastHeld string       // last `=` token (addresses held, as Me() reports them)
 	blockedBy string // which parked call ("j0", "l1") keeps the serve loop blocked
 	blocked bool // serve loop blocked behind a parked Join (hand-off or unclosed error reply)
 	nsync   int
@@ -236,6 +237,29 @@ func (x *run) sample() {
 		}
 	}
 	x.trace = append(x.trace, "?"+string(b))
+	// Me() / Addr(): the occupant address the channel holds (changes only when a join under
+	// another nickname completes)
+	held := make([]string, len(x.addrs))
+	for c := range x.addrs {
+		held[c] = strconv.Itoa(x.cur[c])
+		if x.chans[c] == nil {
+			continue
+		}
+		me, bare := x.chans[c].Me(), x.chans[c].Addr()
+		got := -1
+		var room, nick int
+		if n, _ := fmt.Sscanf(me.String(), "room%d@conf.example.net/nick%d", &room, &nick); n == 2 {
+			got = room + 10*nick
+		}
+		held[c] = strconv.Itoa(got)
+		if got != x.cur[c] || !bare.Equal(occ(x.cur[c]).Bare()) {
+			x.r.Fail("membership", "me-differs-from-the-occupant-address-held", x.lines(), fmt.Sprintf("channel %d: Me()=%s Addr()=%s but the last successful join was confirmed for %s", c, me, bare, occ(x.cur[c])))
+		}
+	}
+	if h := strings.Join(held, "."); h != x.lastHeld {
+		x.lastHeld = h
+		x.trace = append(x.trace, "="+h)
+	}
 }
 
 func (x *run) joinReturned(c int, e c06.Ev) {
